@@ -8,10 +8,12 @@ import (
 	"bytes"
 	"fmt"
 	"go/ast"
+	"go/constant"
 	"go/printer"
 	"go/token"
 	"go/types"
 	"regexp"
+	"strconv"
 	"strings"
 
 	"golang.org/x/tools/go/packages"
@@ -227,6 +229,9 @@ func (c *Ctx) pureExpr(e ast.Expr, mutable map[string]bool) bool {
 					return true
 				}
 			}
+			if fn, isFn := typeutil.Callee(c.Info, x).(*types.Func); isFn && fn.Pkg() != nil && fn.Pkg().Path() == "strings" {
+				return true // package strings is side-effect free
+			}
 			if se, isSel := x.Fun.(*ast.SelectorExpr); isSel && len(x.Args) == 0 {
 				switch se.Sel.Name {
 				case "Pos", "End", "IsValid", "String":
@@ -272,19 +277,21 @@ func (c *Ctx) ExprStr(e ast.Expr) string {
 		p := pn.Imported().Path()
 		return p == "go/ast" || p == load.PkgDst
 	}
-	substHook = nil
-	if len(c.Subst) > 0 {
-		depth := 0
-		substHook = func(id *ast.Ident) ast.Expr {
-			if depth > 6 {
-				return nil
-			}
-			if ex, ok := c.Subst[c.Info.Uses[id]]; ok {
-				depth++
-				return ex
-			}
+	depth := 0
+	substHook = func(id *ast.Ident) ast.Expr {
+		if depth > 6 {
 			return nil
 		}
+		obj := c.Info.Uses[id]
+		if ex, ok := c.Subst[obj]; ok {
+			depth++
+			return ex
+		}
+		// named string constants are printed as their value ("//", "\n", "vendor/")
+		if cst, ok := obj.(*types.Const); ok && cst.Val().Kind() == constant.String {
+			return &ast.BasicLit{Kind: token.STRING, Value: strconv.Quote(constant.StringVal(cst.Val()))}
+		}
+		return nil
 	}
 	cp := deepCopy(e)
 	substHook = nil
@@ -665,6 +672,18 @@ func (c *Ctx) ExpandCall(stmts []ast.Stmt) (body []ast.Stmt, undo func()) {
 			delete(c.Subst, p)
 		}
 	}
+}
+
+// FlattenBody expands, one level deep, every statement of stmts that is a call to a small
+// same-package helper without results; the helpers' parameters stay installed in c.Subst (the
+// caller resets c.Subst when done). Statements of nested blocks are not expanded.
+func (c *Ctx) FlattenBody(stmts []ast.Stmt) []ast.Stmt {
+	var out []ast.Stmt
+	for _, st := range stmts {
+		body, _ := c.ExpandCall([]ast.Stmt{st})
+		out = append(out, body...)
+	}
+	return out
 }
 
 // ObjOf returns the object an identifier uses or defines.
